@@ -22,7 +22,7 @@ type Gen struct {
 var allFeatures = []string{
 	"interp", "if", "for", "formap", "attrs", "style", "show", "vhtml", "vtext", "pipes", "funcs", "expr",
 	"include", "slots", "scoped", "shorthand", "once", "tplvar", "filefn", "less", "frontmatter", "layout",
-	"baselayout", "vpre", "script", "fresh", "nestedfor", "fmcomp", "comment",
+	"baselayout", "vpre", "script", "fresh", "nestedfor", "fmcomp", "comment", "config", "lessimport",
 }
 
 func NewGen(r *Rand) *Gen {
@@ -262,6 +262,21 @@ func (g *Gen) snippet() string {
 			return Pick(r, []string{`<script>var t = "{{ name }}"; if (1 < 2 && t) {}</script>`, `<style>.x-{{ n }} { color: red; }</style>`})
 		}},
 		{"comment", func() string { return `<!-- a comment {{ name }} --><p>after comment</p>` }},
+		{"config", func() string {
+			// theme.yml + data/*.yml are read once when the engine is constructed and seed every template's data
+			if !g.has("theme.yml") {
+				g.put("theme.yml", "site_name: Site Name\npalette:\n  primary: \"#123456\"\n  accent: \"#abcdef\"\nmenu:\n  - home\n  - about\n")
+				g.put("data/nav.yml", "nav:\n  - label: Home\n    url: /\n  - label: Docs\n    url: /docs\nsite_name: Overridden Name\n")
+			}
+			return Pick(r, []string{`<p class="cfg">{{ site_name }} {{ palette.primary }}</p>`, `<ul><li v-for="it in nav"><a :href="it.url">{{ it.label }}</a></li></ul>`, `<p v-for="m in menu">{{ m | upper }}</p>`})
+		}},
+		{"lessimport", func() string {
+			g.Eng.Less = true
+			if !g.has("side/vars.less") {
+				g.put("side/vars.less", "@base: #336699;\n.mix() { border: 1px solid @base; }\n")
+			}
+			return `<style type="text/css+less">@import "side/vars.less"; .box { color: @base; .mix(); }</style>`
+		}},
 	}
 	var avail []sn
 	for _, s := range cat {
